@@ -911,6 +911,63 @@ fn two_pow_63_contexts(cx: &mut Cx, rng: &mut Rng)
 	for ((t, b), r) in cases.iter().zip(replies.iter()) {ctx_check(cx, t, *b, r);}
 }
 
+/// an integer literal directly followed (no blank) by punctuation (`fol <hex> <value>`): the first token is the number with exactly
+/// that value, whatever stands behind it
+fn follow_check(cx: &mut Cx, bytes: &[u8], value: u64, reply: &str)
+{
+	let input = format!("fol {} {value}", hex(bytes));
+	let lx = real_lex(bytes);
+	cx.report.case(Some(&lx.canon));
+	cx.report.hit("literal directly followed by punctuation");
+	cx.report.compare("model.lex.tokens", &input, reply, &lx.canon);
+	if let Some(m) = &lx.panic {cx.report.oracle_fail(input, format!("tokenizer panics: {m}")); return;}
+	match lx.toks.first()
+	{
+		Some(t) if t.kind == "num" && t.payload == value.to_string() && (t.line, t.col) == (1, 1) => (),
+		other => cx.report.oracle_fail(input, format!("the text starts with the literal {value}; the first token is {:?} (error: {:?})", other.map(|t| format!("{} {}", t.kind, t.payload)), lx.err)),
+	}
+}
+
+fn literal_followers(cx: &mut Cx, rng: &mut Rng)
+{
+	let mut cases: Vec<(Vec<u8>, u64)> = Vec::new();
+	let followers: [&[u8]; 14] = [b":", b";", b"<<1", b"=", b">>1", b"?", b"<", b">", b";;;;;;;;", b":x", b"<<", b">>", b"; // c", b";\n"];
+	for radix in [10u32, 16, 2, 8]
+	{
+		for len in 1..=20usize
+		{
+			for _ in 0..3
+			{
+				// `len` digits (leading zeros allowed beyond the first), value within i64
+				let maxdigits = match radix {10 => 18, 16 => 15, 8 => 20, _ => 62};
+				let sig = len.min(maxdigits);
+				let mut v: u64 = 0;
+				let mut digits = String::new();
+				for k in 0..len
+				{
+					let d = if k < len - sig {0} else {rng.below(radix as u64)};
+					v = v.wrapping_mul(radix as u64).wrapping_add(d);
+					digits.push(char::from_digit(d as u32, radix).unwrap());
+				}
+				if radix == 16 && rng.chance(1, 2) {digits = digits.to_uppercase();}
+				let prefix = match radix {10 => "", 16 => "0x", 2 => "0b", _ => "0o"};
+				for f in followers
+				{
+					let mut t = format!("{prefix}{digits}").into_bytes();
+					t.extend_from_slice(f);
+					cases.push((t, v));
+				}
+			}
+		}
+	}
+	for chunk in cases.chunks(8192)
+	{
+		let lines: Vec<String> = chunk.iter().map(|(t, _)| format!("lex tok {}", hex(t))).collect();
+		let replies = cx.model.ask_many(&lines);
+		for ((t, v), r) in chunk.iter().zip(replies.iter()) {follow_check(cx, t, *v, r);}
+	}
+}
+
 fn run_c11(cx: &mut Cx)
 {
 	cx.report.rule = "integers: every n within 2^12 of 0, 2^31, 2^32, 2^63 (below and above) in radix 2, 8, 10, 16, lower / upper / mixed digit case, \
@@ -933,6 +990,12 @@ non-trivial = accepted literal; distinct = distinct canonical token streams".to_
 				let reply = cx.model.ask(&format!("lex tok {}", hex(&bytes)));
 				seq_check(cx, &bytes, &w.split(',').map(str::to_owned).collect::<Vec<_>>(), &reply);
 			},
+			["fol", h, v] if unhex(h).is_some() && v.parse::<u64>().is_ok() =>
+			{
+				let bytes = unhex(h).unwrap();
+				let reply = cx.model.ask(&format!("lex tok {}", hex(&bytes)));
+				follow_check(cx, &bytes, v.parse().unwrap(), &reply);
+			},
 			["ctx", h, n] if unhex(h).is_some() && n.parse::<usize>().is_ok() =>
 			{
 				let bytes = unhex(h).unwrap();
@@ -946,6 +1009,7 @@ non-trivial = accepted literal; distinct = distinct canonical token streams".to_
 	let mut rng = cx.rng.fork();
 	literal_sequences(cx, &mut rng);
 	two_pow_63_contexts(cx, &mut rng);
+	literal_followers(cx, &mut rng);
 
 	// integers around the boundaries
 	let mut b = Batch{class: "integer literal", cases: Vec::new()};
@@ -1167,7 +1231,7 @@ fn token_classes() -> Vec<(Vec<u8>, &'static str)>
 /// separator atoms; `true` = starts with `/` (must not directly follow a `/` token)
 fn separator_atoms() -> Vec<(Vec<u8>, bool)>
 {
-	[(" ", false), ("   ", false), ("\t", false), ("\t \t", false), ("\n", false), ("\r\n", false), ("\n\n\n", false), (" \r\n\t", false),
+	[(" ", false), ("   ", false), ("\t", false), ("\t \t", false), ("\n", false), ("\r\n", false), ("\n\n\n", false), (" \r\n\t", false), ("\r", false), ("\n\r", false), (" \r ", false), ("\r\r\n\r", false),
 		("// line comment\n", true), ("//\n", true), ("// h\u{e9}llo \u{1F600} /* not a block\n", true), ("//\t\"'\\\r\n", true),
 		("/**/", true), ("/* block */", true), ("/* \u{e9}\u{20AC}\u{1F600} */", true), ("/* line1\nline2 \u{e9}\n\tline3 */", true),
 		("/* a /* nested \u{e9} */ b */", true), ("/* /* /* */ */\n */", true), ("/*/ */", true), ("/*\r\n*/", true), ("/* // */", true),
@@ -1308,6 +1372,8 @@ fn clone_section(cx: &mut Cx, rng: &mut Rng)
 	let fixed: [&[u8]; 5] = [b"start:\n\tMOVS R0, 1; // c\nloop: .du8 \"s;\\n\", 2;\n  B loop;\n",
 		"a: /* \u{e9}\u{20ac}\n \u{1F600} */ NOP; b:\r\n\tNOP;".as_bytes(), b".dstr \"multi\nline\"; x: .du32 'q' + 1;\n\n\nend:",
 		b"x: y: z:\nNOP;NOP;\n\tNOP", b"MOVS R0, (1 +\n 2) * 3;\n?"];
+	let cr: [&[u8]; 2] = [b"a:\rNOP; \r b:\n\r.du8 1;\r\r\nc:", b"\r\rx: \r MOVS R0,\r1;\n\r\ty:"];
+	for f in cr {for k in 0..7 {for p in 0..3 {check_clone(cx, f, k, p);}}}
 	for f in fixed {for k in 0..9 {for p in 0..3 {check_clone(cx, f, k, p);}}}
 	let n = if cx.thorough() {40_000} else {6_000};
 	for _ in 0..n
@@ -1353,6 +1419,7 @@ fn check_elements(cx: &mut Cx, text: &[u8], offsets: &[usize])
 fn element_positions(cx: &mut Cx, rng: &mut Rng)
 {
 	let seps: [&str; 12] = [" ", "\n", "\t", "\r\n", "  ", " // c\n", " /* \u{e9}\u{20ac} */ ", "/* a\n b */", "\n\n", "/**/", " /* /* n */ */ ", "\n\t// \u{1F600}\n"];
+	let seps: Vec<&str> = seps.iter().copied().chain(["\r", "\n\r", " \r ", "/* \r */\r"]).collect();
 	let inner: [&str; 9] = ["", "", " ", "\t", "/* c */", "\r\n", "\n", " /* \u{e9} */ ", "/*\n*/"];
 	let n = if cx.thorough() {60_000} else {6_000};
 	for _ in 0..n
